@@ -18,6 +18,9 @@ Dumbbell == << <<0, 0>>, <<4, 0>>, <<4, 2>>, <<8, 2>>, <<8, 0>>, <<12, 0>>, <<12
                <<4, 4>>, <<4, 6>>, <<0, 6>> >>
 Keyhole == << <<0, 0>>, <<12, 0>>, <<12, 12>>, <<0, 12>>, <<0, 4>>, <<4, 4>>, <<4, 8>>, <<8, 8>>,
               <<8, 4>>, <<0, 4>> >>
+\* arms 11 wide around the reflex corner (5, 5): survives an erosion by 5, and the arc that a round join
+\* must cut around the corner is large enough for sample points to lie between it and its chord
+FatL == << <<-6, -6>>, <<17, -6>>, <<17, 5>>, <<5, 5>>, <<5, 17>>, <<-6, 17>> >>
 Tri == << <<1, 1>>, <<11, 1>>, <<1, 9>> >>
 \* [polys, split: parts without union, merged: parts with union]
 Ops == << [polys |-> <<R(2, 2, 8, 6)>>, merged |-> Solo(R(2, 2, 8, 6))],
@@ -27,6 +30,7 @@ Ops == << [polys |-> <<R(2, 2, 8, 6)>>, merged |-> Solo(R(2, 2, 8, 6))],
           [polys |-> <<R(1, 1, 6, 5), R(6, 1, 11, 5)>>, merged |-> Solo(R(1, 1, 11, 5))],
           [polys |-> <<LShape>>, merged |-> Solo(LShape)],
           [polys |-> <<Oct>>, merged |-> Solo(Oct)],
+          [polys |-> <<FatL>>, merged |-> Solo(FatL)],
           [polys |-> <<UNeck>>, merged |-> Solo(UNeck)],
           [polys |-> <<Dumbbell>>, merged |-> Solo(Dumbbell)],
           [polys |-> <<Keyhole>>, merged |-> <<Part(R(0, 0, 12, 12), <<R(4, 4, 8, 8)>>)>>],
@@ -40,7 +44,7 @@ Ops == << [polys |-> <<R(2, 2, 8, 6)>>, merged |-> Solo(R(2, 2, 8, 6))],
            merged |-> Each(<<R(1, 1, 5, 5), R(7, 3, 11, 9)>>)],
           \* a sliver next to a pad: a negative distance beyond half the sliver's size must make it vanish
           [polys |-> <<R(1, 1, 5, 2), R(1, 4, 11, 11)>>, merged |-> Each(<<R(1, 1, 5, 2), R(1, 4, 11, 11)>>)] >>
-Dists == IF Depth = "thorough" THEN {1, 2, 3, 5, -1, -2, -3} ELSE {1, 3, -1, -2, -3}
+Dists == IF Depth = "thorough" THEN {1, 2, 3, 5, -1, -2, -3, -5} ELSE {1, 3, -1, -2, -3, -5}
 Joins == {"round", "miter", "bevel"}
 Scalings == IF Depth = "thorough" THEN {1, 4, 100} ELSE {1, 4}
 Init == \E i \in DOMAIN Ops, d \in Dists, j \in Joins, u \in BOOLEAN, s \in Scalings :
